@@ -293,22 +293,9 @@ def _inplace_pairs(u, fn):
 
 
 def _only_advances(u, fn, pname):
-    """Callee summary: every modification of *pname is a strictly positive advance."""
-    key = '*' + pname
-    adv, sto = _advances_and_stores(u, fn)
-    if key in sto:
-        return False
-    for ev in adv.get(key, []):
-        if ev.kind == 'incdec' and ev.delta < 0:
-            return False
-        if ev.kind == 'store':
-            k = const_val(ev.node['r'])
-            if ev.node['op'] != '+=' or k is None or k <= 0:
-                return False
-    for a in assignments(fn):
-        if a['op'] == '=' and _cursor_key(a['l']) == key:
-            return False
-    return True
+    """Callee summary: on every path *pname ends at or after where it started (rules/curdiff.py)."""
+    from .curdiff import moves_forward
+    return moves_forward(u, fn, pname, 0)
 
 
 INF = 1 << 20
@@ -339,150 +326,102 @@ def _moved_cursors(node):
 
 
 def out6(units, R):
-    """In-place transformers: the write cursor never overtakes the read cursor, so every store lands on a byte
-    the reader has already passed (or is reading in the same statement)."""
-    u = units['cJSON.c']
-    uu = units['cJSON_Utils.c']
+    """In-place transformers: the write cursor never overtakes a read cursor that is still in use, so every store lands on
+    a byte the reader has already passed (or is reading in the same statement).  Difference bounds between all character
+    cursors of the function (rules/curdiff.py) make this independent of whether the function works on its parameters
+    directly or on local copies that it stores back."""
+    from .curdiff import CursorDiffs, summaries_of, NEG
     nfn = 0
-    summaries = {}   # fn name -> min net lag at return for 'params' pairs
-    todo = []
-    for unit in (u, uu):
+    for unit in (units['cJSON.c'], units['cJSON_Utils.c']):
+        summ = summaries_of(unit)
         for fn in unit.function_list:
-            for pair in _inplace_pairs(unit, fn):
-                todo.append((unit, fn, pair))
-    todo.sort(key=lambda t: 0 if t[2][2] == 'params' else 1)
-    for (unit, fn, (w, r, kind)) in todo:
-        nfn += 1
-        cfg = fn.cfg()
-        obs = {}
-
-        def transfer(node, L, record=False):
-            for ev in node_effects(node):
-                if ev.kind == 'incdec':
-                    key = _cursor_key(ev.lhs)
-                    if key == r:
-                        L = L + ev.delta if ev.delta > 0 else -INF
-                    elif key == w:
-                        L = L - ev.delta if ev.delta > 0 else L
-                elif ev.kind == 'store':
-                    op = ev.node['op']
-                    key = _cursor_key(ev.lhs)
-                    if key in (r, w) and op in ('+=', '-=', '='):
-                        k = const_val(ev.node['r']) if op != '=' else None
-                        if op == '+=' and k is not None and k >= 0:
-                            L = L + k if key == r else L - k
-                        elif op == '=' and key == w and _cursor_key(ev.node['r']) == r:
-                            L = 0
-                        else:
-                            L = -INF
-                        continue
-                    acc = access(ev.lhs)
-                    if acc is not None and _cursor_key(acc[0]) == w:
-                        i = acc[1]
-                        ok = False
-                        why = ''
-                        if isinstance(i, int):
-                            if i <= L:
-                                ok = True
-                                why = 'index %d <= lag %d: byte already passed by the reader' % (i, L)
-                            elif ev.rhs is not None:
-                                racc = access(strip_casts(ev.rhs)) if strip_casts(ev.rhs).get('k') in ('idx', 'un') else None
-                                if racc is not None and _cursor_key(racc[0]) == r and isinstance(racc[1], int) and i <= racc[1] + L:
-                                    ok = True
-                                    why = 'copies %s[%d], itself in bounds, to an index not beyond it (lag %d)' % (r, racc[1], L)
-                            if not ok:
-                                why = 'store at %s[%d] with lag %s may land beyond the byte being read' % (w, i, L if L > -INF else 'unknown')
-                        else:
-                            why = 'store at a computed index of the in-place write cursor'
-                        if record:
-                            obs[ev.node['id']] = (ok, why, ev.node)
-                elif ev.kind == 'call':
-                    cn = callee_name(ev.node)
-                    for ai, a in enumerate(ev.node['args']):
-                        a0 = strip_casts(a)
-                        tgt = None
-                        if a0.get('k') == 'un' and a0['op'] == '&':
-                            tgt = _cursor_key(a0['e'])
-                        elif kind == 'params' and '*' + _cursor_key(a0) in (r, w):
-                            tgt = '*' + _cursor_key(a0)
-                        if tgt not in (r, w):
-                            continue
-                        # summary of the callee
-                        cu = unit if cn in unit.functions else None
-                        if cu is None:
-                            L = -INF
-                            continue
-                        callee = cu.functions[cn]
-                        if cn in summaries and len([1 for b in ev.node['args'] if True]) == 2:
-                            # both cursors handed over: net lag of the callee applies once
-                            if ai == 0:
-                                if record:
-                                    obs[('call', ev.node['id'])] = (L >= 0, 'callee %s assumes lag >= 0, caller has %s'
-                                                                    % (cn, L if L > -INF else 'unknown'), ev.node)
-                                L = L + summaries[cn] if L > -INF else -INF
-                        elif tgt == r and _only_advances(cu, callee, callee.params[ai]['n']):
-                            pass   # reader only moves forward: lag can only grow
-                        else:
-                            L = -INF
-            return L
-
-        # state (lag, reader at origin, writer at origin): two cursors pointed at the same unmoved parameter have lag 0
-        origin_param = None
-        if kind == 'local':
-            origin_param = _origin_of(unit, fn, w, r)
-
-        def at_origin_after(node, key):
-            """does this node point cursor `key` at the origin parameter (which must be a different, never-moved variable,
-            or the other cursor while it still stands at the origin)?"""
-            if node.kind == 'decl' and node.decl['n'] == key and 'init' in node.decl:
-                return _cursor_key(node.decl['init'])
-            if node.kind == 'stmt':
-                e = strip_casts(node.expr)
-                if e.get('k') == 'bin' and e['op'] == '=' and _cursor_key(e['l']) == key:
-                    return _cursor_key(e['r'])
-            return None
-
-        def tr(node, S):
-            L, rz, wz = S
-            for key in (w, r):
-                src = at_origin_after(node, key)
-                if src is None:
+            cd0 = CursorDiffs(unit, fn, summ)
+            if len(cd0.keys) < 2:
+                continue
+            W, Rd = cd0.roles()
+            if not W or not Rd:
+                continue
+            # in place = a written-through cursor and a read-through cursor are pointed at the same string
+            assume = dict(summ.get(fn.name, {}).get('assume', {})) if fn.name in summ else {}
+            cd = CursorDiffs(unit, fn, summ, assume=assume)
+            states = cd.run()
+            live = cd.liveness()
+            cd.roles()
+            cls = cd.same_string()
+            # the caller of a two-cursor transformer hands it two cursors into one string (checked at the call sites)
+            for (x, y) in assume:
+                cls = {k: (cls[x[1:]] if c == cls[y[1:]] else c) for k, c in cls.items()}
+            related = any(cls[a] == cls[b] for a in Rd for b in W)
+            if not related:
+                continue
+            nfn += 1
+            obs = {}
+            for n in cd.cfg.nodes:
+                D0 = states.get(n.id)
+                if D0 is None:
                     continue
-                src_at_origin = (src == origin_param and src not in (w, r)) or (src == r and rz) or (src == w and wz)
-                if key == w and src == r:
-                    return (0, rz, rz)
-                if key == r and src == w:
-                    return (0, wz, wz)
-                if key == w:
-                    wz = src_at_origin
-                else:
-                    rz = src_at_origin
-                return (0 if (rz and wz) else -INF, rz, wz)
-            L2 = transfer(node, L)
-            moved = _moved_cursors(node)
-            if r in moved:
-                rz = False
-            if w in moved:
-                wz = False
-            return (L2, rz, wz)
 
-        init = (0, True, True) if kind == 'params' else (-INF, origin_param == r, origin_param == w)
-        states3 = solve(cfg, init, tr, lambda n, l, s: s, lambda a, b: (min(a[0], b[0]), a[1] and b[1], a[2] and b[2]),
-                        widen=lambda old, new, v: new if v < 6 else ((-INF if new[0] < old[0] else old[0]), new[1], new[2]))
-        states = {k: v[0] for k, v in states3.items()}
-        for n in cfg.nodes:
-            if n.id in states and not (n.kind == 'decl'):
-                transfer(n, states[n.id], record=True)
-        if kind == 'params':
-            rets = [states.get(cfg.exit.id)]
-            net = states.get(cfg.exit.id, -INF)
-            summaries[fn.name] = net
-            R.ob('OUT6', fn, None, 'net lag of %s over one call is >= 0' % fn.name, net is not None and net >= 0,
-                 'minimum over all paths: %s' % (net if net is not None and net > -INF else 'unbounded below'),
-                 key='netlag')
-        for (ok, why, node) in obs.values():
-            R.ob('OUT6', fn, node, 'in-place store %s stays behind the reader' % expr_str(node)[:60], ok, why,
-                 key='store:' + expr_str(node)[:60])
+                def on_event(ev, D, n=n):
+                    if ev.kind == 'call' and callee_name(ev.node) in summ:
+                        # an in-place callee assumes its reader is not behind its writer
+                        cs = summ[callee_name(ev.node)]
+                        hand = {}
+                        for ai, a in enumerate(ev.node['args']):
+                            a0 = strip_casts(a)
+                            k = cd.key(a0['e']) if (a0.get('k') == 'un' and a0['op'] == '&') else (
+                                '*' + a0['n'] if a0.get('k') == 'ref' and a0.get('n') in cd.pp else None)
+                            if k and ai < len(cs['params']):
+                                hand['@*' + cs['params'][ai]] = k
+                        for (x, y), need in cs.get('assume', {}).items():
+                            if x in hand and y in hand:
+                                have = cd.get(D, hand[x], hand[y])
+                                obs[('call', ev.node['id'])] = (have >= need, 'callee %s assumes lag >= %d, caller has %s' % (
+                                    callee_name(ev.node), need, have if have > NEG else 'unknown'), ev.node)
+                        return
+                    if ev.kind != 'store':
+                        return
+                    acc = access(ev.lhs)
+                    if acc is None:
+                        return
+                    wb = cd.norm(acc[0])
+                    if not wb or wb[0] not in W or wb[1] == 'nonneg':
+                        return
+                    w = wb[0]
+                    i = acc[1]
+                    if not isinstance(i, int):
+                        obs[ev.node['id']] = (False, 'store at a computed index of the in-place write cursor', ev.node)
+                        return
+                    i = i + wb[1]
+                    readers = [a for a in Rd if a != w and (a in live[n.id]) and cls[a] == cls[w]]
+                    ok, why = True, 'no reader of the same string is still in use'
+                    for a in sorted(readers):
+                        L = cd.get(D, a, w)
+                        if i <= L:
+                            why = 'index %d <= lag %d behind %s: byte already passed by the reader' % (i, L, a)
+                            continue
+                        racc = None
+                        if ev.rhs is not None and strip_casts(ev.rhs).get('k') in ('idx', 'un'):
+                            racc = access(strip_casts(ev.rhs))
+                        rb = cd.norm(racc[0]) if racc is not None else None
+                        if rb and rb[1] != 'nonneg' and isinstance(racc[1], int) and cd.get(D, rb[0], w) > NEG and \
+                                i <= racc[1] + rb[1] + cd.get(D, rb[0], w) and \
+                                (rb[0] == a or (cd.get(D, rb[0], a) >= 0 and cd.get(D, a, rb[0]) >= 0)):
+                            why = 'copies %s[%d], itself in bounds, to an index not beyond it (lag %d)' % (rb[0], racc[1], cd.get(D, rb[0], w))
+                            continue
+                        ok = False
+                        why = 'store at %s[%d] with lag %s behind %s may land beyond the byte being read' % (
+                            w, i, L if L > NEG else 'unknown', a)
+                        break
+                    obs[ev.node['id']] = (ok, why, ev.node)
+                cd.transfer(n, D0, on_event=on_event)
+            if fn.name in summ and summ[fn.name].get('assume'):
+                for (x, y), need in summ[fn.name]['assume'].items():
+                    net = summ[fn.name]['D'].get((x[1:], y[1:]), NEG)
+                    R.ob('OUT6', fn, None, 'net lag of %s over one call is >= 0' % fn.name, net >= 0,
+                         'minimum over all paths: %s' % (net if net > NEG else 'unbounded below'), key='netlag')
+            for (ok, why, node) in obs.values():
+                R.ob('OUT6', fn, node, 'in-place store %s stays behind the reader' % expr_str(node)[:60], ok, why,
+                     key='store:' + expr_str(node)[:60])
     R.floor('OUT6', 'in-place transformers', nfn, 3)
 
 
